@@ -39,7 +39,10 @@ def gen(rng, i, tier):
         if lay["phases"] and all(pat):
             pat[0] = 0  # a leading input that is dead in SOME phases
         spec = c05.realise(lay, pat)
-        return {"spec": spec, "energy": False, "ta": 25.0, "phase_arg": rng.random() < 0.2}
+        return {"spec": spec, "energy": False, "ta": 25.0, "phase_arg": rng.random() < 0.2,
+                # (the report is first produced before the phase configurations - which make the mux switch rails - exist)
+                "history": rng.choice(["fresh", "solve_then_phase_conf", "solve_then_phase_conf", "identity_change_comp"]),
+                "hseed": rng.randrange(1 << 30)}
     norails = rng.random() < 0.12
     spec = G.gen_system(
         rng, n_comp=(3, 26 if big else 14), n_src=(1, 3) if rng.random() < 0.5 else (1, 1), mux=0.45,
@@ -79,7 +82,7 @@ def toks(cell):
 
 def run(ctx, case):
     spec = case["spec"]
-    spec, sysobj = _rows.build_with_history(ctx, spec, case.get("history", "fresh"), case.get("hseed", 0))
+    spec, sysobj = _rows.build_with_history(ctx, spec, case.get("history", "fresh"), case.get("hseed", 0), prefer="rail_rep")
     phases = list((spec.get("phases") or {}).keys())
     kw = dict(energy=case["energy"], ta=case["ta"])
     if case.get("tags"):
